@@ -14,7 +14,7 @@ func init() {
 	register(&Property{
 		Meta: report.Meta{
 			Property:    "C15",
-			Explanation: "Decision tables read off the CFG of command.Covers and command.Parse. Covers: no 'true' path without HasPrefix(other, c) (roles checked) and without one of the boundary facts {c == \"/\", len(c) == len(other), other[len(c)] == '/'}; no 'false' path when the prefix fact and any boundary fact hold. Parse: no success without leading slash, with a trailing slash on a longer string, or with a string that differs from its lower-casing; success returns the input unchanged; a string satisfying the three conditions is never rejected. Top/Join/Segments use the single separator \"/\". The order axioms follow from this shape but are runtime-value clauses and are not decided.",
+			Explanation: "Decision tables read off the CFG of command.Covers and command.Parse. Covers: no 'true' path without HasPrefix(other, c) (roles checked) and without one of the boundary facts {c == \"/\", len(c) == len(other), other[len(c)] == '/'}; no 'false' path when the prefix fact and any boundary fact hold. Parse: no success without leading slash, with a trailing slash on a longer string, or with a string that differs from its lower-casing; success returns the input unchanged; a string satisfying the three conditions is never rejected. Top/Join/Segments use the single separator \"/\". The order axioms follow from this shape but are runtime-value clauses and are not decided. (R4) Join: in its loop over the segments an iteration leaves the buffer unchanged only for an empty segment and otherwise appends [one separator, unless the buffer holds only the root] and the whole segment; the result is the buffer started from the receiver.",
 			Assumptions: []string{"strings.HasPrefix/HasSuffix/ToLower/Split semantics"},
 			Trusted:     []string{"golang.org/x/tools/go/ssa v0.29.0", "package strings"},
 			NotDecided:  []string{"reflexivity/antisymmetry/transitivity as such (they follow from the prefix+boundary shape for valid commands)", "Join on segments that themselves contain '/'"},
